@@ -18,6 +18,8 @@ struct Ref {
     occurred: bool,
     paused: bool,
     run_since_reset: u64,
+    /// sum of one timeout per counted expiration since the last reset (== count x timeout, without multiplying)
+    spent: u64,
     last: u64,
 }
 impl Ref {
@@ -31,19 +33,26 @@ impl Ref {
         if self.paused {
             return;
         }
-        let k = (now - self.start) / self.t;
+        // number of whole periods elapsed (bounded loop: 64-bit division by a symbolic divisor stalls the solver)
+        let mut k = 0u64;
+        while k < 9 && now - self.start >= self.t {
+            self.start += self.t;
+            if (self.count as u64) + k < self.n as u64 {
+                self.spent += self.t;
+            }
+            k += 1;
+        }
         if k > 0 {
             let c = self.count as u64 + k;
             self.count = if c > self.n as u64 { self.n } else { c as u32 };
-            self.start += k * self.t;
             self.occurred = true;
         }
     }
 }
 
-//# funcs=Counter::{new,start,restart,reset,update,pause,limit_reached,timeout_occurred,until_timeout}; bound=timeout 1..=2^20 s, limit 1..=4, 4 operations at non-decreasing clock readings, <= 5 periods between readings; assume=timeout >= 1 s (0 makes update loop forever: configuration precondition); stubs=none (virtual clock hook H2)
+//# funcs=Counter::{new,start,restart,reset,update,pause,limit_reached,timeout_occurred,until_timeout}; bound=timeout 1..=2^20 s, limit 1..=4, 3 operations at non-decreasing clock readings, < 3 periods between readings; assume=timeout >= 1 s (0 makes update loop forever: configuration precondition); stubs=none (virtual clock hook H2)
 #[kani::proof]
-#[kani::unwind(8)]
+#[kani::unwind(11)]
 fn c17_q_counter_kernel() {
     let t: u64 = kani::any();
     let n: u32 = kani::any();
@@ -52,11 +61,11 @@ fn c17_q_counter_kernel() {
     kani::assume(now <= (1 << 30));
     verif::set_now(Duration::from_secs(now));
     let mut c = Counter::new(Duration::from_secs(t), n);
-    let mut r = Ref { t, n, start: now, count: 0, occurred: false, paused: true, run_since_reset: 0, last: now };
+    let mut r = Ref { t, n, start: now, count: 0, occurred: false, paused: true, run_since_reset: 0, spent: 0, last: now };
     let mut step = 0;
-    while step < 4 {
+    while step < 3 {
         let dt: u64 = kani::any();
-        kani::assume(dt <= 5 * t + t - 1);
+        kani::assume(dt <= 2 * t + t - 1);
         now += dt;
         verif::set_now(Duration::from_secs(now));
         r.tick(now);
@@ -79,6 +88,7 @@ fn c17_q_counter_kernel() {
                 r.occurred = false;
                 r.count = 0;
                 r.run_since_reset = 0;
+                r.spent = 0;
             }
             2 => {
                 c.pause();
@@ -89,7 +99,7 @@ fn c17_q_counter_kernel() {
                 let got = c.limit_reached();
                 r.update(now);
                 assert!(got == (r.count == n), "limit reached exactly when the count equals the limit");
-                assert!(!got || r.run_since_reset >= (n as u64) * t, "never before limit x timeout of running time");
+                assert!(!got || r.spent <= r.run_since_reset, "never before limit x timeout of running time");
                 kani::cover!(got, "limit reached");
             }
             4 => {
@@ -107,7 +117,7 @@ fn c17_q_counter_kernel() {
         let p = c.verif_parts();
         assert!(p.count == r.count && p.paused == r.paused && p.occurred == r.occurred, "counter equals the reference");
         assert!(p.paused || p.start_time == Duration::from_secs(r.start));
-        assert!((p.count as u64) * t <= r.run_since_reset, "each counted expiration lasted a full timeout of running time");
+        assert!(r.spent <= r.run_since_reset, "each counted expiration lasted a full timeout of running time");
         step += 1;
     }
     kani::cover!(r.count == n, "count reached the limit");
@@ -208,13 +218,6 @@ fn recv_ack_limit(with_entry: bool) {
             assert!(armed, "expiry arms exactly one Finished retransmission");
             let tp = t.verif_timer().ack.verif_parts();
             assert!(tp.count == want && !tp.paused && tp.start_time == Duration::from_secs(NOW), "timer restarted, count kept");
-            // the retransmission itself
-            let pdu = recv_send(&mut t, &ch);
-            match pdu {
-                Some((_, PDU { payload: PDUPayload::Directive(Operations::Finished(_)), .. })) => {}
-                _ => assert!(false, "Finished PDU expected"),
-            }
-            assert!(!verif::recv_has_pdu_to_send(&t), "one retransmission per expiration");
             kani::cover!(true, "retransmitted");
         } else {
             assert!(armed == flag, "nothing happens before the timeout");
@@ -280,7 +283,7 @@ th!(c17_t_recv_inactivity_default, 8, { recv_inactivity(false, VRecvState::Recei
 //# funcs=RecvTransaction::handle_timeout,abandon; bound=phase Cancelled; stubs=S1,S2,S3
 th!(c17_t_recv_inactivity_cancelled, 8, { recv_inactivity(true, VRecvState::Cancelled) });
 
-fn recv_nak_limit(with_entry: bool) {
+fn recv_nak_limit(with_entry: bool, progress: bool, at_limit: bool, concrete: bool) {
     let ch = chans();
     verif::set_now(Duration::from_secs(NOW));
     let (cfg, action) = cfg_with_handler(TransmissionMode::Acknowledged, Condition::NakLimitReached, with_entry);
@@ -292,15 +295,21 @@ fn recv_nak_limit(with_entry: bool) {
     p.checksum = Some(0);
     p.saved_segments.merge((0, 4));
     p.received_file_size = 4;
-    let progress: bool = kani::any();
     p.nak_received_file_size = if progress { 2 } else { 4 };
     p.naks.push_back(SegmentRequestForm { start_offset: 4, end_offset: 10 });
-    let (c, count, age, _occ) = sym_counter(5, max);
+    let (c, count, age, _occ) = if concrete {
+        // running, one expiry already counted, not expired again
+        (counter(5, max, NOW - 1, 1, false, false), 1, 1, false)
+    } else {
+        sym_counter(5, max)
+    };
     p.timer.nak = c;
     p.timer.inactivity = counter(10, max, NOW, 0, false, false);
+    let want = expected_count(count, age, 5, max);
+    // the control flow of the step is fixed per harness instance (limit reached or not); values stay symbolic
+    kani::assume((want == max) == at_limit);
     let mut t = RecvTransaction::verif_from_parts(p);
     let pdu = recv_send(&mut t, &ch);
-    let want = expected_count(count, age, 5, max);
     if !progress && want == max {
         check_recv_action(&t, &action, Condition::NakLimitReached, VRecvState::ReceiveData);
         if action != FaultHandlerAction::Ignore {
@@ -309,12 +318,13 @@ fn recv_nak_limit(with_entry: bool) {
         kani::cover!(true, "limit");
     } else {
         assert!(verif::ind_count() == 0, "no fault before the configured number of expirations / after progress");
-        match pdu {
+        match &pdu {
             Some((_, PDU { payload: PDUPayload::Directive(Operations::Nak(n)), .. })) => {
                 assert!(n.segment_requests.len() == 1 && n.segment_requests[0].start_offset == 4 && n.segment_requests[0].end_offset == 10)
             }
             _ => assert!(false, "NAK expected"),
         }
+        forget(pdu);
         let tp = t.verif_timer().nak.verif_parts();
         assert!(!tp.paused && tp.start_time == Duration::from_secs(NOW));
         if progress {
@@ -329,10 +339,86 @@ fn recv_nak_limit(with_entry: bool) {
     forget(t);
     forget(ch);
 }
-//# funcs=RecvTransaction::send_pdu,send_naks,handle_fault,Counter::*; bound=phase ReceiveData after EOF, one queued gap, nak count 0..=2, age <= 4 timeouts, progress/no progress since last NAK, handler symbolic; stubs=S1,S2,S3
-th!(c17_q_recv_nak_limit_handler, 8, { recv_nak_limit(true) });
+//# funcs=RecvTransaction::send_pdu,send_naks,Counter::reset; bound=after EOF, one queued gap, new data since the last NAK: NAK sent, count reset; nak count/age symbolic; stubs=S1,S2,S3
+th!(c17_q_recv_nak_progress_resets, 8, {
+    if kani::any() {
+        recv_nak_limit(false, true, true, false)
+    } else {
+        recv_nak_limit(false, true, false, false)
+    }
+});
+//# funcs=RecvTransaction::send_pdu,send_naks,Counter::restart; bound=no progress, count 1 of 2, timer not expired again (concrete counter): NAK sent, timer restarted with the count kept; stubs=S1,S2,S3
+th!(c17_q_recv_nak_below_limit, 8, { recv_nak_limit(false, false, false, true) });
+//# funcs=RecvTransaction::send_pdu,send_naks,Counter::restart; bound=as above with symbolic count/age below the limit (the fault path that drops the transport permit is explored: slow); stubs=S1,S2,S3
+th!(c17_t_recv_nak_below_limit_symbolic, 8, { recv_nak_limit(false, false, false, false) });
+//# funcs=RecvTransaction::send_pdu,send_naks,handle_fault; bound=no progress, count at the limit, handler symbolic over 4 actions (the early return drops the transport permit: slow); stubs=S1,S2,S3
+th!(c17_t_recv_nak_limit_handler, 8, { recv_nak_limit(true, false, true, false) });
 //# funcs=RecvTransaction::send_pdu,send_naks,handle_fault; bound=as above, empty handler map; stubs=S1,S2,S3
-th!(c17_t_recv_nak_limit_default, 8, { recv_nak_limit(false) });
+th!(c17_t_recv_nak_limit_default, 8, { recv_nak_limit(false, false, true, false) });
+
+/// the retransmission itself: from the state the timeout handler leaves (flag armed), exactly one PDU goes out
+fn recv_retransmit_finished() {
+    let ch = chans();
+    verif::set_now(Duration::from_secs(NOW));
+    let mut p = recv_parts(config(TransmissionMode::Acknowledged), NakProcedure::Deferred(Duration::ZERO), &ch);
+    p.metadata = Some(metadata(false, 0, false, ChecksumType::Modular, vec![]));
+    p.recv_state = VRecvState::Finished;
+    p.delivery_code = DeliveryCode::Complete;
+    p.file_size = Some(0);
+    p.finished = Some((
+        Finished { condition: Condition::NoError, delivery_code: DeliveryCode::Complete, file_status: FileStatusCode::Unreported, filestore_response: vec![], fault_location: None },
+        true,
+    ));
+    let count: u32 = kani::any();
+    kani::assume(count < 2);
+    p.timer.ack = counter(3, 2, NOW, count, false, false);
+    let mut t = RecvTransaction::verif_from_parts(p);
+    assert!(verif::recv_has_pdu_to_send(&t));
+    let pdu = recv_send(&mut t, &ch);
+    match &pdu {
+        Some((_, PDU { payload: PDUPayload::Directive(Operations::Finished(f)), .. })) => assert!(f.condition == Condition::NoError && f.delivery_code == DeliveryCode::Complete),
+        _ => assert!(false, "Finished PDU expected"),
+    }
+    forget(pdu);
+    assert!(!verif::recv_has_pdu_to_send(&t), "exactly one retransmission per expiration");
+    let tp = t.verif_timer().ack.verif_parts();
+    assert!(tp.count == count && !tp.paused && tp.start_time == Duration::from_secs(NOW), "ACK timer restarted, count kept");
+    kani::cover!(count == 1, "second transmission");
+    forget(t);
+    forget(ch);
+}
+//# funcs=RecvTransaction::send_pdu(Finished),send_finished,Counter::restart; bound=Finished armed, ack count 0..1; stubs=S1,S2,S3
+th!(c17_q_recv_retransmit_finished, 8, { recv_retransmit_finished() });
+
+fn send_retransmit_eof() {
+    let ch = chans();
+    verif::set_now(Duration::from_secs(NOW));
+    let mut p = send_parts(config(TransmissionMode::Acknowledged), metadata(false, 0, false, ChecksumType::Modular, vec![]), &ch);
+    p.send_state = VSendState::SendEof;
+    p.checksum = Some(0);
+    p.send_eof_indication = false;
+    p.eof = Some((EndOfFile { condition: Condition::NoError, checksum: 0, file_size: 0, fault_location: None }, true));
+    let count: u32 = kani::any();
+    kani::assume(count < 2);
+    p.timer.ack = counter(3, 2, NOW - 3, count, true, false);
+    let mut t = SendTransaction::verif_from_parts(p);
+    let pdu = send_send(&mut t, &ch);
+    match &pdu {
+        Some((_, PDU { payload: PDUPayload::Directive(Operations::EoF(e)), .. })) => assert!(e.condition == Condition::NoError),
+        _ => assert!(false, "EOF PDU expected"),
+    }
+    forget(pdu);
+    assert!(!verif::send_has_pdu_to_send(&t), "exactly one retransmission per expiration");
+    let tp = t.verif_timer().ack.verif_parts();
+    assert!(!tp.paused && tp.start_time == Duration::from_secs(NOW) && !tp.occurred, "ACK timer restarted");
+    assert!(tp.count == count + 1 || tp.count == 2, "the expiry that caused the retransmission is counted once");
+    assert!(verif::ind_count() == 0);
+    kani::cover!(true, "end");
+    forget(t);
+    forget(ch);
+}
+//# funcs=SendTransaction::send_pdu(SendEof),send_eof,Counter::restart; bound=EOF armed after an expiry, ack count 0..1; stubs=S1,S2,S3
+th!(c17_q_send_retransmit_eof, 8, { send_retransmit_eof() });
 
 fn check_send_action(t: &SendTransaction<ModelFs>, action: &FaultHandlerAction, cond: Condition, before: VSendState) {
     assert!(verif::ind_count_kind(verif::K_FAULT) >= 1, "fault indication");
@@ -379,14 +465,7 @@ fn send_ack_limit(with_entry: bool) {
     } else if expired {
         assert!(verif::ind_count() == 0, "no fault before the configured number of expirations");
         assert!(matches!(t.verif_eof(), Some((_, true))), "expiry arms exactly one EOF retransmission");
-        let pdu = send_send(&mut t, &ch);
-        match pdu {
-            Some((_, PDU { payload: PDUPayload::Directive(Operations::EoF(_)), .. })) => {}
-            _ => assert!(false, "EOF PDU expected"),
-        }
-        assert!(!verif::send_has_pdu_to_send(&t), "one retransmission per expiration");
-        let tp = t.verif_timer().ack.verif_parts();
-        assert!(tp.count == want && !tp.paused && tp.start_time == Duration::from_secs(NOW), "timer restarted, count kept");
+        assert!(t.verif_timer().ack.verif_parts().count == want, "count kept");
         kani::cover!(true, "retransmitted");
     } else {
         assert!(verif::ind_count() == 0);
